@@ -227,6 +227,27 @@ def exec_check(res, a, desc, rng, case, jac=False):
         res.count(f"executed:{method}")
         if method == "dense":
             dense_out = out
+            if thermal and not jac and ol.LAST_KERG[0]:
+                # the temperature equation of the compiled dense routine against the formula: gamma comes from GetGamma (the data
+                # member is negative by default), the particle density from GetNumDens (the sum of the species abundances), kerg
+                # from the rendered constants file
+                n_ = len(a.species)
+                for (k, y), o in zip(exact, out):
+                    ysp = [y[f"IDX_{al}"] for al in a.aliases]
+                    kh_, kc_ = cases[exact.index((k, y))][1], cases[exact.index((k, y))][2]
+                    tot = Fraction(0)
+                    for sign, procs, coef in ((1, a.info.heating, kh_), (-1, a.info.cooling, kc_)):
+                        for c_, p_ in zip(coef, procs):
+                            t = c_
+                            for q in p_.reactants:
+                                t = t * y[f"IDX_{yal(a, q)}"]
+                            tot += sign * t
+                    want = (5.0 / 3.0 - 1.0) * float(tot) / ol.LAST_KERG[0] / float(sum(ysp))
+                    if abs(o["F"][n_] - want) > 1e-9 * max(abs(want), 1e-300):
+                        res.violation("oracle", f"{where}: the temperature derivative computes to {o['F'][n_]!r}; (gamma - 1) (heating - cooling) / (kerg npar) with "
+                                      f"gamma = 5/3, npar = the sum of the abundances is {want!r}", dict(case, k=[str(k[l]) for l in sorted(k)], y={m_: str(v) for m_, v in y.items()}))
+                        return
+                res.count("temperature equation executed")
         elif thermal and method != "odeint":
             # the temperature row: every CVODE layout computes it from the same abundances with the same coefficients, so it must
             # be the value the dense back-end computes (whose text is checked against the formula in channel B); in a batch, from
